@@ -430,6 +430,15 @@ def run(ctx, R, tier):
     R.check(ok, "C03-R7", "_pyroInvoke|accepts-only-MSG_RESULT", "the client accepts exactly [MSG_RESULT] as a call reply", f.loc(recv_calls[0]),
             "the client accepts other message types as the answer of a call: `%s`" % (unparse(arg) if arg is not None else "None"))
 
+    # streamed results: a stream's table key is made fresh per stream; two streams of one conversation must not answer each other's item requests (shared with C10-R3)
+    from ..report import Rules
+    from . import c10
+    R10 = Rules("C10")
+    c10.run(ctx, R10, tier)
+    for o in R10.obs:
+        if o.key == "C10-R3|_streamResponse|fresh-id":
+            R.add("C03-R5", "_streamResponse|fresh-id", o.desc + " (an item request must never be answered from another call's stream)", o.ok, o.loc, o.detail)
+
 
 def _inside_try(node, t):
     n = node
